@@ -448,6 +448,45 @@ def shape_specs():
     return out
 
 
+SENTINEL_SPEC = [('zzprev.stone', 'namespace zzprev\n\nstruct ZzPrevType\n    a Int32\n    l List(ZzPrevItem)\n\nstruct ZzPrevItem\n    b String?\n\nunion ZzPrevUnion\n    pa\n    pb ZzPrevType\n\n'
+                  'struct ZzPrevTree\n    union\n        zleaf ZzPrevLeaf\n    t Int32\n\nstruct ZzPrevLeaf extends ZzPrevTree\n    l Int32\n\n'
+                  'route zzprevroute(ZzPrevType, ZzPrevUnion, ZzPrevTree)\n    attrs\n        style = "upload"\n\nroute zzprevget(Void, ZzPrevItem, Void)\n')]
+HISTORY_SHAPES = ['field:Plain', 'tag:List(Uni)', 'route-arg:upload:Tree', 'route-result:rpc:Map(String, Plain)', 'namespace:routes-only:imported', 'default:Uni', 'field:other.Fo']
+
+
+def history_task(label, specs, inv):
+    """Process history: every configuration first builds an unrelated spec (sentinel names) in this process, then the spec under
+    observation; nothing of the first build may show up in the second output."""
+    oc = collections.Counter()
+    out_v = []
+    n = 0
+    first = impl.compile_specs(SENTINEL_SPEC + [('cfg.stone', c12.CFG)])
+    if first.kind != 'ok':
+        raise explore.InternalError('sentinel spec not accepted: ' + first.brief())
+    for backend, args in CONFIGS:
+        n += 1
+        impl.backend_outputs(impl.compile_specs(SENTINEL_SPEC + [('cfg.stone', c12.CFG)]).api, [backend], args_override={backend: args})
+        res = impl.backend_outputs(impl.compile_specs(specs).api, [backend], args_override={backend: args})[backend]
+        cfg = backend + (' --objc' if '--objc' in args else '')
+        if 'crash' in res:
+            oc['crash'] += 1
+            continue
+        leaked = []
+        for fn, data in res['files'].items():
+            text = data.decode('utf-8', 'replace')
+            for m in re.finditer(r'\w*(?:zzprev|ZzPrev|ZZPREV|Zzprev)\w*', text):
+                leaked.append((fn, m.group(0)))
+            if re.search(r'zzprev|ZzPrev|ZZPREV|Zzprev', fn):
+                leaked.append((fn, '(file name)'))
+        if leaked:
+            oc['leak'] += 1
+            out_v.append(viol('history-leak:%s' % cfg, '%s output for %s mentions names of a spec that was built earlier in the same process: %r' % (cfg, label, leaked[:4]),
+                              {'specs': specs, 'backend': backend, 'args': args, 'history': 'the sentinel spec (namespace zzprev) was built first in the same process', 'shape': label}))
+        else:
+            oc['history-clean:' + cfg] += 1
+    return {'outcome': oc, 'viol': out_v, 'n': n, 'transitions': n}
+
+
 def shape_task(label, specs, inv):
     oc = collections.Counter()
     out_v = []
@@ -458,6 +497,8 @@ def shape_task(label, specs, inv):
 def task(item):
     if item[0] == 'shape':
         return shape_task(item[1], item[2], item[3])
+    if item[0] == 'history':
+        return history_task(item[1], item[2], item[3])
     model, trace, pname, flags, depth = item[1]
     specs = render.render(model)
     if not any(ns.name == 'stone_cfg' for ns in model.namespaces):
@@ -477,7 +518,10 @@ def run(tier, seed):
     items = [('model', s) for s in states if not any(ns.name == 'stone_cfg' for ns in s[0].namespaces) and s[2] != 'path-routes']
     shapes = shape_specs()
     items += [('shape', lab, sp, inv) for lab, sp, inv in shapes]
-    r.bounds.update({'configurations': [b + ' ' + ' '.join(a[:1] if a and a[0] == '--objc' else []) for b, a in CONFIGS], 'models': len(items) - len(shapes),
+    hist = [('history', lab, sp, inv) for lab, sp, inv in shapes if lab in HISTORY_SHAPES]
+    r.bounds['history_specs'] = [h[1] for h in hist]
+    items += hist
+    r.bounds.update({'configurations': [b + ' ' + ' '.join(a[:1] if a and a[0] == '--objc' else []) for b, a in CONFIGS], 'models': len(items) - len(shapes) - len(hist),
                      'shape_specs': len(shapes), 'shape_leaves': LEAVES, 'shape_wrappers': WRAPS1 + WRAPS2 + (WRAPS3 if tier != 'quick' else WRAPS3[:2])})
     r.sample({'shape': shapes[3][0], 'specs': shapes[3][1][1][1][-300:]})
     r.run_tasks(task, items, budget=600, chunksize=4)
